@@ -485,22 +485,29 @@ int KSI_PublicationsFile_serialize(KSI_CTX *ctx, KSI_PublicationsFile *pubFile, 
 
 	memcpy(tmp + sizeof(PUB_FILE_HEADER_ID) - 1, buf, buf_len);
 
-	if (pubFile->raw != NULL) KSI_free(pubFile->raw);
-	pubFile->raw = tmp;
-	pubFile->raw_len = tmp_len;
-	pubFile->signedDataLength = tmp_len - sig_len;
-	tmp = NULL;
+	if (pubFile->raw != NULL) {
+		/* The object was parsed from octets: those stay what its signature is verified over.
+		 * The reconstruction is handed to the caller only. */
+		*raw = (char *)tmp;
+		*raw_len = tmp_len;
+		tmp = NULL;
+	} else {
+		pubFile->raw = tmp;
+		pubFile->raw_len = tmp_len;
+		pubFile->signedDataLength = tmp_len - sig_len;
+		tmp = NULL;
 
-	tmp = (unsigned char *) KSI_malloc(pubFile->raw_len);
-	if (tmp == NULL) {
-		KSI_pushError(ctx, res = KSI_OUT_OF_MEMORY, NULL);
-		goto cleanup;
+		tmp = (unsigned char *) KSI_malloc(pubFile->raw_len);
+		if (tmp == NULL) {
+			KSI_pushError(ctx, res = KSI_OUT_OF_MEMORY, NULL);
+			goto cleanup;
+		}
+
+		memcpy(tmp, pubFile->raw, pubFile->raw_len);
+		*raw = (char *)tmp;
+		*raw_len = pubFile->raw_len;
+		tmp = NULL;
 	}
-
-	memcpy(tmp, pubFile->raw, pubFile->raw_len);
-	*raw = (char *)tmp;
-	*raw_len = pubFile->raw_len;
-	tmp = NULL;
 
 	res = KSI_OK;
 
